@@ -44,7 +44,7 @@ def parseOp : List String → Option Op
     match h.toNat?, parseUp u with
     | some h, some u => some (.resumed h u)
     | _, _ => none
-  | ["resetCache"] => some .resetCache
+  | ["clearCache"] => some .resetCache
   | _ => none
 
 def stepLine (s : St) (line : String) : St × String :=
